@@ -436,6 +436,79 @@ Definition chk (c : pgraph * (list node * list nat) * list (nat * option (list d
     return rows, bad
 
 
+def _declare_shapes(ir, rng, b, g, p_none=0.25):
+    """give the node outputs of a transpose-tie graph declared shapes that are mostly TRUE (so that the rewired refresh has
+    something to compute), sometimes absent, sometimes symbolic"""
+    known = {}
+    for v in b.inputs + b.consts:
+        ds = v.shape
+        if ds is not None:
+            known[v.name] = [d if isinstance(d, int) else getattr(d, "value", None) for d in ds.dims]
+    for n in g:
+        ins = [known.get(iv.name) if iv is not None else None for iv in n.inputs]
+        out = None
+        if n.op_type == "Transpose" and ins and ins[0] is not None:
+            perm = n.attributes.get("perm")
+            if perm is not None and len(perm.as_ints()) == len(ins[0]):
+                out = [ins[0][k] for k in perm.as_ints()]
+            elif perm is None:
+                out = list(reversed(ins[0]))
+        elif ins and any(i is not None for i in ins):
+            cands = [i for i in ins if i is not None]
+            out = list(max(cands, key=len))
+        for o in n.outputs:
+            if out is not None:
+                known[o.name] = out
+            if out is None or rng.random() < p_none:
+                o.shape = None
+            else:
+                o.shape = ir.Shape(tuple(("B" if (rng.random() < 0.1 and d is not None) else d) for d in out))
+
+
+def _all_shapes(ir, b, g, intern):
+    vals = {}
+    for v in list(b.inputs) + list(b.consts) + list(b.vals):
+        vals.setdefault(v.name, v)
+    for n in g:
+        for o in n.outputs:
+            vals.setdefault(o.name, o)
+    return {intern(nm): dims_of(ir, v) for nm, v in vals.items() if dims_of(ir, v) is not None}
+
+
+# whether the phase-D chain fold of the real pass refreshes its members (false until the stale-shape defect is repaired)
+_CHAIN_RF = "false"
+
+_SHAPE_CHK = """
+Definition dims_eqb (a b : option (list dim)) : bool :=
+  match a, b with Some x, Some y => list_eqb dim_eqb x y | None, None => true | _, _ => false end.
+Definition chk (c : ograph * (list node * list nat) * list (nat * option (list dim))) : bool :=
+  let '(g, (ns, outs), sha) := c in
+  let g' := o_loop STEP 60 g in
+  list_eqb node_eqb (o_nodes g') ns && leqb (o_outputs g') outs && forallb (fun p => dims_eqb (o_shape g' (fst p)) (snd p)) sha.
+"""
+
+
+def _shape_tie(ctx, tag, rows, step_expr, what):
+    """rows: (before, after, scalars, shapes_before, shapes_after, names)"""
+    header = (common.CASES_HEADER + "From J2O Require Import Graph Redirect ReshapePairPass TransposePairPass OptGraph TransposeRefresh.\nClose Scope Z_scope.\n"
+              + _SHAPE_CHK.replace("STEP", step_expr))
+
+    def render(chunk, off):
+        items = []
+        for before, after, scalars, sh_b, sh_a, names in chunk:
+            og = (f"(mkOG {coq_nodes(before[0], True)} {nl(before[1])} (fun _ => None) {coq_fn(sh_b, '(list dim)', lambda v: '(Some ' + dims_lit(v) + ')')} "
+                  f"{coq_fn(scalars, 'bool', lambda v: 'true', default='false')} (fun _ => None) (fun _ => None) (fun _ => None) None)")
+            shl = "[" + "; ".join(f"({k}, {'Some ' + dims_lit(sh_a[k]) if k in sh_a else 'None'})" for k in names) + "]"
+            items.append(f"({og}, ({coq_nodes(after[0], True)}, {nl(after[1])}), {shl})")
+        return "Definition cs := [\n" + ";\n".join(items) + "].\nEval vm_compute in bad_idx_ chk 0 cs.\n"
+    bad, err = collect_bad(*coq_eval_batches(ctx, tag, header, rows, render))
+    changed = sum(1 for r in rows for k in r[5] if r[3].get(k) != r[4].get(k))
+    ctx.oblige(f"tie:TransposeRefresh.v {what} ({len(rows)} graphs with declared shapes; {changed} declared shapes refreshed or cleared; nodes, graph "
+               "outputs and the declared shape of every value compared)", err is None and bad == [], "tie",
+               err if err is not None else f"model and implementation differ on cases {bad[:6]}: {[rows[i] for i in bad[:1]]}")
+    return bad
+
+
 # ------------------------------------------------------------------ random graphs for the transpose-pair pass
 _PERMS = {2: [[1, 0], [0, 1]], 3: [[0, 2, 1], [2, 0, 1], [1, 2, 0], [1, 0, 2], [0, 1, 2]], 4: [[0, 2, 3, 1], [0, 3, 1, 2], [0, 1, 3, 2]]}
 
@@ -641,8 +714,11 @@ def tie_transpose_pair_pass(ctx, n_cases):
         def intern(name):
             return table.setdefault(name, len(table) + 1)
         known = {v.name for v in b.inputs + b.consts + b.vals}
+        if c >= 12:
+            _declare_shapes(ir, rng, b, g)
         before = dump(ir, g, intern, known)
         scalars = {intern(v.name): True for v in b.inputs + b.consts + b.vals if opt._is_scalar_const_value(v)}
+        shapes_b = _all_shapes(ir, b, g, intern)
         ort_before = _ort_outputs(_model_bytes(ir, g), c) if c < 12 else None
         try:
             opt.remove_redundant_transpose_pairs_ir(g)
@@ -662,7 +738,10 @@ def tie_transpose_pair_pass(ctx, n_cases):
         removed = len(before[0]) - len(after[0])
         stats["graphs_rewritten"] += int(before != after)
         stats["nodes_removed"] += removed
-        rows.append((before, after, scalars))
+        shapes_a = _all_shapes(ir, b, g, intern)
+        rows.append((before, after, scalars, shapes_b, shapes_a, sorted(set(shapes_b) | set(shapes_a))))
+    shape_bad = _shape_tie(ctx, "c02_transpose_pair_shapes", rows, "(o_step_T CHAIN_RF)".replace("CHAIN_RF", _CHAIN_RF),
+                           "o_step_T (fold + rewired refresh of the moved members) == remove_redundant_transpose_pairs_ir")
     header = common.CASES_HEADER + "From J2O Require Import Graph Redirect ReshapePairPass TransposePairPass TransposeRegion.\nClose Scope Z_scope.\n" + """
 Definition chk (c : tgraph * (list node * list nat)) : bool :=
   let '(g, (ns, outs)) := c in
@@ -677,7 +756,7 @@ Definition kinds (l : list (tgraph * (list node * list nat))) : list nat :=
 
     def render(chunk, off):
         items = []
-        for before, after, scalars in chunk:
+        for before, after, scalars, _sb, _sa, _nm in chunk:
             tg = f"(mkTG {coq_nodes(before[0], True)} {nl(before[1])} {coq_fn(scalars, 'bool', lambda v: 'true', default='false')})"
             items.append(f"({tg}, ({coq_nodes(after[0], True)}, {nl(after[1])}))")
         return ("Definition cs := [\n" + ";\n".join(items) + "].\nEval vm_compute in bad_idx_ chk 0 cs.\n"
@@ -996,8 +1075,11 @@ def tie_transpose_add_forest_pass(ctx, n_cases):
         def intern(name):
             return table.setdefault(name, len(table) + 1)
         known = {v.name for v in b.inputs + b.consts + b.vals}
+        if c >= 6:
+            _declare_shapes(ir, rng, b, g)
         before = dump(ir, g, intern, known)
         scalars = {intern(v.name): True for v in b.inputs + b.consts + b.vals if opt._is_scalar_const_value(v)}
+        shapes_b = _all_shapes(ir, b, g, intern)
         ort_before = _ort_outputs(_model_bytes(ir, g), c) if c < 6 else None
         try:
             opt.remove_redundant_transpose_add_forests_ir(g)
@@ -1017,7 +1099,10 @@ def tie_transpose_add_forest_pass(ctx, n_cases):
                             f"the real pass changes the model's outputs on crafted graph {c}", {"tie": "transpose_add_forest", "case": c})
         stats["graphs_rewritten"] += int(before != after)
         stats["nodes_removed"] += len(before[0]) - len(after[0])
-        rows.append((before, after, scalars))
+        shapes_a = _all_shapes(ir, b, g, intern)
+        rows.append((before, after, scalars, shapes_b, shapes_a, sorted(set(shapes_b) | set(shapes_a))))
+    _shape_tie(ctx, "c02_transpose_addforest_shapes", rows, "o_step_F",
+               "o_step_F (fold + rewired refresh of the moved Adds) == remove_redundant_transpose_add_forests_ir")
     header = common.CASES_HEADER + "From J2O Require Import Graph Redirect ReshapePairPass TransposePairPass TransposeAddForestPass.\nClose Scope Z_scope.\n" + """
 Definition chk (c : tgraph * (list node * list nat)) : bool :=
   let '(g, (ns, outs)) := c in
@@ -1027,7 +1112,7 @@ Definition chk (c : tgraph * (list node * list nat)) : bool :=
 
     def render(chunk, off):
         items = []
-        for before, after, scalars in chunk:
+        for before, after, scalars, _sb, _sa, _nm in chunk:
             tg = f"(mkTG {coq_nodes(before[0], True)} {nl(before[1])} {coq_fn(scalars, 'bool', lambda v: 'true', default='false')})"
             items.append(f"({tg}, ({coq_nodes(after[0], True)}, {nl(after[1])}))")
         return "Definition cs := [\n" + ";\n".join(items) + "].\nEval vm_compute in bad_idx_ chk 0 cs.\n"
@@ -1126,7 +1211,7 @@ Definition chk (c : ograph * list (nat * option (list dim)) * list (nat * option
         items = []
         for before, sh_b, dt_b, sh_a, dt_a, names in chunk:
             og = (f"(mkOG {coq_nodes(before[0])} {nl(before[1])} {coq_fn(dt_b, 'Z', lambda v: f'(Some ({v})%Z)')} "
-                  f"{coq_fn(sh_b, '(list dim)', lambda v: '(Some ' + dims_lit(v) + ')')} (fun _ => false) (fun _ => None) (fun _ => None))")
+                  f"{coq_fn(sh_b, '(list dim)', lambda v: '(Some ' + dims_lit(v) + ')')} (fun _ => false) (fun _ => None) (fun _ => None) (fun _ => None) None)")
             shl = "[" + "; ".join(f"({k}, {'Some ' + dims_lit(sh_a[k]) if k in sh_a else 'None'})" for k in names) + "]"
             dtl = "[" + "; ".join(f"({k}, {f'Some ({dt_a[k]})%Z' if k in dt_a else 'None'})" for k in names) + "]"
             items.append(f"({og}, {shl}, {dtl})")
@@ -1252,4 +1337,242 @@ Definition chk (c : graph * (list node * list nat) * nat) : bool :=
                err is None and bad == [], "tie",
                err if err is not None else f"model and implementation differ on cases {bad[:6]}: {[rows[i] for i in bad[:2]]}")
     ctx.coverage["swish_tie"] = dict(stats)
+    return rows, bad
+
+
+# ------------------------------------------------------------------ inline_dropout_training_mode_constants_ir
+def _rand_dropout_graph(ir, rng, stats):
+    b = _Builder(ir, rng)
+    x0 = b.inp((2, 3))
+    ratio = b.const(np.asarray(0.5, np.float32))
+    outs = []
+
+    def dom():
+        return "ai.onnx" if rng.random() < 0.06 else ("custom" if rng.random() < 0.04 else "")
+
+    def bool_src():
+        r = rng.random()
+        if r < 0.55:
+            return b.const(np.asarray(True))
+        if r < 0.65:
+            return b.const(np.asarray(False))
+        if r < 0.72:
+            return b.const(np.asarray([True]))                 # one element, rank 1: still "scalar True" for _as_scalar_bool
+        if r < 0.8:                                             # a Constant node
+            v = b.val(b.fresh(), ())
+            v.type = ir.TensorType(ir.DataType.BOOL)
+            b.nodes.append(ir.Node("", "Constant", [], outputs=[v], name=b.fresh("n"),
+                                   attributes=[ir.Attr("value", ir.AttributeType.TENSOR, ir.tensor(np.asarray(True)))]))
+            v.const_value = ir.tensor(np.asarray(True)) if rng.random() < 0.5 else None
+            b.vals.append(v)
+            return v
+        if r < 0.9:                                             # a dynamic graph input
+            v = ir.val(b.fresh("tm_"), ir.DataType.BOOL, ())
+            b.inputs.append(v)
+            return v
+        v = ir.val(b.fresh("tmc_"), ir.DataType.BOOL, (), const_value=ir.tensor(np.asarray(True)))    # a graph input WITH a constant value
+        b.inputs.append(v)
+        b.consts.append(v)
+        return v
+    if rng.random() < 0.25:
+        fc = ir.val("false_const", ir.DataType.BOOL, (), const_value=ir.tensor(np.asarray(False)))
+        b.consts.append(fc)
+        stats["false_const_preexists"] += 1
+        if rng.random() < 0.4:
+            outs.append(b.node("Identity", [fc], ()))
+    cur = x0
+    nts = []
+    for _ in range(rng.randint(1, 3)):
+        if nts and rng.random() < 0.35:
+            nt = rng.choice(nts)
+        elif rng.random() < 0.12:
+            nt = bool_src()                                     # training_mode without a Not
+        else:
+            src = bool_src()
+            v = b.val(b.fresh(), ())
+            v.type = ir.TensorType(ir.DataType.BOOL)
+            b.nodes.append(ir.Node(dom(), "Not" if rng.random() < 0.93 else "Identity", [src], outputs=[v], name=b.fresh("n")))
+            b.vals.append(v)
+            nt = v
+            nts.append(nt)
+        ins = [cur, ratio if rng.random() < 0.9 else None, nt]
+        if rng.random() < 0.08:
+            ins = ins[:2]
+        n_out = 2 if rng.random() < 0.2 else 1
+        o = [b.val(b.fresh(), (2, 3)) for _ in range(n_out)]
+        b.nodes.append(ir.Node(dom(), "Dropout", ins, outputs=o, name=b.fresh("n")))
+        b.vals.extend(o)
+        cur = o[0]
+        r = rng.random()
+        if r < 0.12 and hasattr(nt, "name") and nt in nts:
+            outs.append(nt)
+            stats["not_is_output"] += 1
+        elif r < 0.22 and nt in nts:
+            outs.append(b.node("Cast", [nt], (), attrs=[ir.Attr("to", ir.AttributeType.INT, 1)]))
+            stats["not_extra_consumer"] += 1
+        elif r < 0.3 and nt in nts:
+            outs.append(b.if_capturing([nt]))
+            stats["not_captured"] += 1
+    outs.append(cur)
+    uniq = []
+    for v in outs:
+        if v not in uniq:
+            uniq.append(v)
+    return b, b.graph(uniq)
+
+
+def tie_dropout_pass(ctx, n_cases):
+    import collections
+    import onnx_ir as ir
+    from jax2onnx.converter import ir_optimizations as opt
+    rng = ctx.rng
+    stats = collections.Counter()
+    rows = []
+    for c in range(n_cases):
+        b, g = _rand_dropout_graph(ir, rng, stats)
+        table = {}
+
+        def intern(name):
+            return table.setdefault(name, len(table) + 1)
+        known = {v.name for v in b.inputs + b.consts + b.vals}
+
+        def snap():
+            ns, outs = dump(ir, g, intern, known, keep_none=True)
+            return [(op, [], i, cc, o) for op, _n, i, cc, o in ns], outs
+        before = snap()
+        values = {}
+        for v in list(g.inputs) + list(g.initializers.values()) + [iv for n in g for iv in n.inputs if iv is not None] + [o for n in g for o in n.outputs]:
+            values.setdefault(v.name, v)
+        nodes_now = list(g)
+        bools = {}
+        for nm, v in values.items():
+            if nm in table and not v.is_graph_input():
+                r = opt._read_scalar_bool_from_value_or_constant(nodes_now, v)
+                if r is not None:
+                    bools[table[nm]] = bool(r)
+        fc0 = intern("false_const") if "false_const" in g.initializers else None
+        opt.inline_dropout_training_mode_constants_ir(g)
+        known |= {"false_const"}
+        after = snap()
+        stats["graphs_rewritten"] += int(before != after)
+        stats["not_nodes_removed"] += len(before[0]) - len(after[0])
+        stats["false_const_created"] += int(fc0 is None and "false_const" in g.initializers)
+        rows.append((before, after, bools, fc0))
+    header = common.CASES_HEADER + "From J2O Require Import Graph Redirect ReshapePairPass TransposePairPass OptGraph DropoutPass.\nClose Scope Z_scope.\n" + """
+Definition chk (c : ograph * (list node * list nat)) : bool :=
+  let '(g, (ns, outs)) := c in
+  let g' := o_pass_dropout g in
+  list_eqb node_eqb (o_nodes g') ns && leqb (o_outputs g') outs.
+"""
+
+    def lit_nodes(ns):
+        return "[" + "; ".join(f'mkNode "{op}"%string {nl(a)} {nl(i)} {nl(cc)} {nl(o)}' for op, a, i, cc, o in ns) + "]"
+
+    def render(chunk, off):
+        items = []
+        for bf, af, bools, fc0 in chunk:
+            og = (f"(mkOG {lit_nodes(bf[0])} {nl(bf[1])} (fun _ => None) (fun _ => None) (fun _ => false) (fun _ => None) (fun _ => None) "
+                  f"{coq_fn(bools, 'bool', lambda v: '(Some true)' if v else '(Some false)')} {'None' if fc0 is None else f'(Some {fc0})'})")
+            items.append(f"({og}, ({lit_nodes(af[0])}, {nl(af[1])}))")
+        return "Definition cs := [\n" + ";\n".join(items) + "].\nEval vm_compute in bad_idx_ chk 0 cs.\n"
+    bad, err = collect_bad(*coq_eval_batches(ctx, "c02_dropout", header, rows, render))
+    ctx.oblige(f"tie:DropoutPass.v o_pass_dropout == inline_dropout_training_mode_constants_ir ({len(rows)} random graphs, {stats['graphs_rewritten']} rewritten, "
+               f"{stats['not_nodes_removed']} Not nodes removed, false_const created {stats['false_const_created']} times / pre-existing {stats['false_const_preexists']} times)",
+               err is None and bad == [], "tie",
+               err if err is not None else f"model and implementation differ on cases {bad[:6]}: {[rows[i] for i in bad[:2]]}")
+    ctx.coverage["dropout_tie"] = dict(stats)
+    return rows, bad
+
+
+# ------------------------------------------------------------------ propagate_elementwise_shapes_ir (annotation-only)
+def _rand_elem_graph(ir, rng, stats):
+    b = _Builder(ir, rng)
+    shapes = [(2, 3), ("B", 3), (None, 3), (3,), (1, 3), (2, 1), ("B", 1), ("C", 3), (1,), (), (4, 2, 3), None]
+    for _ in range(rng.randint(1, 3)):
+        b.inp(rng.choice(shapes))
+    pool = list(b.vals)
+    for _ in range(rng.randint(0, 2)):
+        pool.append(b.scalar_const())
+    if rng.random() < 0.3:
+        pool.append(b.bare_initializer(rng.choice([(1, 1), (1,), (2, 3)])))
+    dts = [ir.DataType.FLOAT, ir.DataType.FLOAT16, ir.DataType.INT64]
+    for _ in range(rng.randint(2, 6)):
+        op = rng.choice(["Add", "Sub", "Mul", "Div", "Max", "Min", "Clip", "Pow", "Relu"])
+        dom = rng.choice(["custom", "ai.onnx"]) if rng.random() < 0.08 else ""
+        k = {"Clip": rng.choice([1, 2, 3]), "Relu": 1, "Max": rng.choice([1, 2, 3]), "Min": rng.choice([2, 3])}.get(op, 2)
+        ins = [rng.choice(pool) for _ in range(k)]
+        shp = rng.choice([None, None, (2, 3), ("B", 3), (7,), (None, 3)])
+        v = b.val(b.fresh(), shp)
+        if rng.random() < 0.3:
+            v.type = None
+        elif rng.random() < 0.5:
+            v.type = ir.TensorType(rng.choice(dts))
+        b.nodes.append(ir.Node(dom, op, ins, outputs=[v], name=b.fresh("n")))
+        b.vals.append(v)
+        pool.append(v)
+        stats["binary_table_nodes"] += int(dom == "" and op in ("Add", "Sub", "Mul", "Div", "Max", "Min", "Clip"))
+    return b, b.graph([b.vals[-1]])
+
+
+def tie_propagate_elementwise_shapes(ctx, n_cases):
+    import collections
+    import onnx_ir as ir
+    from jax2onnx.converter import ir_optimizations as opt
+    rng = ctx.rng
+    stats = collections.Counter()
+    rows = []
+    for c in range(n_cases):
+        b, g = _rand_elem_graph(ir, rng, stats)
+        table = {}
+
+        def intern(name):
+            return table.setdefault(name, len(table) + 1)
+        known = {v.name for v in b.inputs + b.consts + b.vals}
+        before = dump(ir, g, intern, known)
+
+        def ann():
+            sh, dt = {}, {}
+            for v in b.inputs + b.consts + b.vals:
+                ds = dims_of(ir, v)
+                if ds is not None:
+                    sh[intern(v.name)] = ds
+                code = _dtype_code(ir, v)
+                if code is not None:
+                    dt[intern(v.name)] = code
+            return sh, dt
+        sh_b, dt_b = ann()
+        scalars = {intern(v.name): True for v in b.inputs + b.consts + b.vals if opt._is_scalar_const_value(v)}
+        opt.propagate_elementwise_shapes_ir(g)
+        assert dump(ir, g, intern, known) == before, "propagate_elementwise_shapes_ir changed the nodes"
+        sh_a, dt_a = ann()
+        names = sorted(intern(v.name) for v in b.inputs + b.consts + b.vals)
+        stats["shapes_set"] += sum(1 for k in names if sh_b.get(k) != sh_a.get(k))
+        stats["dtypes_set"] += sum(1 for k in names if dt_b.get(k) != dt_a.get(k))
+        rows.append((before, sh_b, dt_b, scalars, sh_a, dt_a, names))
+    header = common.CASES_HEADER + "From J2O Require Import Graph Redirect ReshapePairPass OptGraph PropagateShapes.\nClose Scope Z_scope.\n" + """
+Definition dims_eqb (a b : option (list dim)) : bool :=
+  match a, b with Some x, Some y => list_eqb dim_eqb x y | None, None => true | _, _ => false end.
+Definition oz_eqb (a b : option Z) : bool := match a, b with Some x, Some y => Z.eqb x y | None, None => true | _, _ => false end.
+Definition chk (c : ograph * list (nat * option (list dim)) * list (nat * option Z)) : bool :=
+  let '(g, sha, dta) := c in
+  let g' := o_pass_elem g in
+  forallb (fun p => dims_eqb (o_shape g' (fst p)) (snd p)) sha && forallb (fun p => oz_eqb (o_dtype g' (fst p)) (snd p)) dta.
+"""
+
+    def render(chunk, off):
+        items = []
+        for before, sh_b, dt_b, scalars, sh_a, dt_a, names in chunk:
+            og = (f"(mkOG {coq_nodes(before[0])} {nl(before[1])} {coq_fn(dt_b, 'Z', lambda v: f'(Some ({v})%Z)')} "
+                  f"{coq_fn(sh_b, '(list dim)', lambda v: '(Some ' + dims_lit(v) + ')')} {coq_fn(scalars, 'bool', lambda v: 'true', default='false')} "
+                  "(fun _ => None) (fun _ => None) (fun _ => None) None)")
+            shl = "[" + "; ".join(f"({k}, {'Some ' + dims_lit(sh_a[k]) if k in sh_a else 'None'})" for k in names) + "]"
+            dtl = "[" + "; ".join(f"({k}, {f'Some ({dt_a[k]})%Z' if k in dt_a else 'None'})" for k in names) + "]"
+            items.append(f"({og}, {shl}, {dtl})")
+        return "Definition cs := [\n" + ";\n".join(items) + "].\nEval vm_compute in bad_idx_ chk 0 cs.\n"
+    bad, err = collect_bad(*coq_eval_batches(ctx, "c02_propagate_elem", header, rows, render))
+    ctx.oblige(f"tie:PropagateShapes.v o_pass_elem == propagate_elementwise_shapes_ir ({len(rows)} random graphs, {stats['binary_table_nodes']} nodes of the "
+               f"table, {stats['shapes_set']} declared shapes and {stats['dtypes_set']} declared dtypes set; nodes untouched, every value's annotation compared)",
+               err is None and bad == [], "tie",
+               err if err is not None else f"model and implementation differ on cases {bad[:6]}: {[rows[i] for i in bad[:2]]}")
+    ctx.coverage["propagate_elem_tie"] = dict(stats)
     return rows, bad
